@@ -65,6 +65,64 @@ def run(ctx):
         ctx.check("prop-written-is-read", wi, ok, f"property {k!r} written on import is read on export" + (f" ({READ_EXCEPTIONS[k]})" if k in READ_EXCEPTIONS and k not in rk else ""), construct=k, message=f"import_commit stores revision property {k!r} but export_commit never reads it: that part of the git commit cannot be reproduced")
     if "author" in wk:
         ctx.check("prop-written-is-read", we, any(call_attr(c) == "get_apparent_authors" for c in calls_in(fe)), "export reads the author through get_apparent_authors()")
+    # ---- each commit field is restored from its own property key only ---------------------------------------
+    def _keys_of(node):
+        ks, _ = read_keys(node, "rev.properties") if not isinstance(node, ast.expr) else read_keys(ast.Expr(value=node), "rev.properties")
+        return ks
+
+    def _walk_guarded(stmts, guards):
+        for st in stmts:
+            if isinstance(st, ast.If):
+                gk = _keys_of(st.test)
+                yield from _walk_guarded(st.body, guards + [gk] if gk else guards)
+                yield from _walk_guarded(st.orelse, guards + [gk] if gk else guards)
+            elif isinstance(st, (ast.With, ast.For, ast.While)):
+                yield from _walk_guarded(st.body, guards)
+            elif isinstance(st, ast.Try):
+                yield from _walk_guarded(st.body, guards)
+                for h in st.handlers:
+                    yield from _walk_guarded(h.body, guards)
+                yield from _walk_guarded(st.orelse, guards)
+                yield from _walk_guarded(st.finalbody, guards)
+            elif isinstance(st, ast.Assign) and any(norm(t).startswith("commit.") for t in st.targets):
+                yield st, guards
+
+    n_fields = 0
+    for st, guards in _walk_guarded(fe.body, []):
+        own = _keys_of(st.value)
+        foreign = sorted({k for g_ in guards for k in g_} - own) if own else []
+        n_fields += 1
+        ctx.check("field-from-own-key", we, not foreign, f"`{norm(st.targets[0])}` is restored from {sorted(own) or 'the revision'} without depending on another property's presence", construct=norm(st)[:90], message=f"`{norm(st)[:80]}` is restored from {sorted(own)} only when {foreign} is present: import_commit records the two independently, so a commit that has one without the other exports with different bytes (another SHA-1)")
+    ctx.require(n_fields >= 10, f"{we}: only {n_fields} commit field assignments found")
+    # ---- the decode helper is retried with another encoding: it must not keep results of the failed attempt ------
+    inner = [n for n in ast.walk(fi) if isinstance(n, ast.FunctionDef) and n is not fi and any(isinstance(x, ast.Nonlocal) for x in n.body)]
+    retried = [n for n in inner if any(isinstance(l_, ast.For) and any(isinstance(c, ast.Call) and norm(c.func) == n.name for c in ast.walk(l_)) for l_ in ast.walk(fi))]
+    ctx.require(len(retried) == 1, f"{wi}: the retried decode helper was not found")
+    from ..cfg import build_cfg
+
+    gd = build_cfg(retried[0])
+    outs = [nm for x in retried[0].body if isinstance(x, ast.Nonlocal) for nm in x.names]
+    for nm in outs:
+        writes = {n.id for n in gd.nodes if n.kind == "stmt" and isinstance(n.ast, (ast.Assign, ast.AnnAssign, ast.AugAssign)) and any(isinstance(t, ast.Name) and t.id == nm and isinstance(t.ctx, ast.Store) for t in ast.walk(n.ast)) and not any(isinstance(t, ast.Name) and t.id == nm and isinstance(t.ctx, ast.Load) for t in ast.walk(n.ast))}
+        reads = {n.id for n in gd.nodes if n.ast is not None and n.kind in ("stmt", "test", "for", "with_enter") and any(isinstance(t, ast.Name) and t.id == nm and isinstance(t.ctx, ast.Load) for t in ast.walk(n.ast))}
+        early = sorted(reads & gd.reach([gd.entry], avoid=writes, include_src=True))
+        ctx.check("retry-keeps-no-state", f"{wi}.{retried[0].name}", bool(writes) and not early, f"`{nm}` is written before it is read in every attempt", construct="; ".join(gd.nodes[i].text() for i in early), message=f"`{nm}` is read before this attempt assigned it ({'; '.join(gd.nodes[i].text() for i in early)}): the value decoded with the encoding that failed survives into the retry, so committer/author/message end up decoded with different encodings and the exported commit differs")
+    # ---- special encoding values are special on both sides --------------------------------------------------
+    special = set()
+    for n in ast.walk(fi):
+        if isinstance(n, ast.Compare) and len(n.ops) == 1 and isinstance(n.ops[0], (ast.Eq, ast.NotEq)) and norm(n.left) == "commit.encoding" and isinstance(n.comparators[0], ast.Constant) and isinstance(n.comparators[0].value, bytes):
+            special.add(n.comparators[0].value.decode("ascii"))
+    handled = set()
+    for n in ast.walk(fe):
+        if isinstance(n, ast.Compare) and len(n.ops) == 1 and isinstance(n.ops[0], (ast.Eq, ast.NotEq, ast.In, ast.NotIn)):
+            for side in [n.left] + list(n.comparators):
+                for c_ in ast.walk(side):
+                    if isinstance(c_, ast.Constant) and isinstance(c_.value, (str, bytes)):
+                        v = c_.value.decode("ascii") if isinstance(c_.value, bytes) else c_.value
+                        if v in special:
+                            handled.add(v)
+    for v in sorted(special):
+        ctx.check("encoding-special-values", we, v in handled, f"the encoding header value {v!r}, which import_commit does not use as a codec, is not used as a codec by export_commit either", construct=v, message=f"import_commit treats `encoding {v}` as 'no usable encoding' (it decodes with utf-8/latin1) but export_commit encodes with the stored value: a commit carrying `encoding {v}` is imported and then cannot be exported (LookupError: unknown encoding)")
     ctx.check("mergetag-template", wi, wt == rt and len(wt) == 1, f"mergetag key template {sorted(wt)} is the same on both sides ({sorted(rt)})", construct=f"{sorted(wt)} / {sorted(rt)}")
     mp = None
     for n in walk_own(fe):
@@ -103,6 +161,8 @@ def run(ctx):
 
 
 MUTANTS = [
+    Mutant("author -0000 flag restored only with an author timezone", MP, "        commit._author_timezone_neg_utc = \"author-timezone-neg-utc\" in rev.properties\n        if \"author-timezone\" in rev.properties:\n            commit.author_timezone = int(rev.properties[\"author-timezone\"])\n", "        if \"author-timezone\" in rev.properties:\n            commit.author_timezone = int(rev.properties[\"author-timezone\"])\n            commit._author_timezone_neg_utc = \"author-timezone-neg-utc\" in rev.properties\n", expect="field-from-own-key"),
+    Mutant("committer decoded only on the first attempt", MP, "            try:\n                committer = commit.committer.decode(encoding)\n", "            try:\n                if committer is None:\n                    committer = commit.committer.decode(encoding)\n", expect="retry-keeps-no-state"),
     Mutant("import writes a key export does not know", MP, "            properties[\"git-gpg-signature\"] = commit.gpgsig.decode(", "            properties[\"git-gpgsig\"] = commit.gpgsig.decode(", expect="prop-written-is-read"),
     Mutant("separator differs on one side", RT, "    return message + b\"\\n--BZR--\\n\" + rt_data", "    return message + b\"\\n--BZR-\\n\" + rt_data", expect="metadata-separator"),
     Mutant("parser forgets a key", RT, "        elif key == b\"testament3-sha1\":\n            ret.verifiers[b\"testament3-sha1\"] = value.strip()\n", "", expect="metadata-keys"),
